@@ -219,12 +219,24 @@ func (dec *Decoder) Decode(v interface{}) (err error) {
 		if n == -1 {
 			return errors.New("stark-curve encoder: unsupported type")
 		}
-		err = binary.Read(dec.r, binary.BigEndian, t)
-		if err == nil {
-			dec.n += int64(n)
-		}
+		// count the bytes consumed even when the read falls short
+		cr := countingReader{r: dec.r}
+		err = binary.Read(&cr, binary.BigEndian, t)
+		dec.n += cr.n
 		return
 	}
+}
+
+// countingReader counts the bytes read through it
+type countingReader struct {
+	r io.Reader
+	n int64
+}
+
+func (c *countingReader) Read(p []byte) (int, error) {
+	n, err := c.r.Read(p)
+	c.n += int64(n)
+	return n, err
 }
 
 // BytesRead return total bytes read from reader
